@@ -19,6 +19,8 @@ GUARD = "BREEZY_VERIF"
 
 _scratch = None
 _booted = False
+_REAL_HOME = os.environ.get("VERIF_REAL_HOME") or os.path.expanduser("~")
+os.environ.setdefault("VERIF_REAL_HOME", _REAL_HOME)
 
 
 def scratch():
@@ -74,6 +76,10 @@ def build_rust(packages):
     if not packages:
         return
     env = dict(os.environ, CARGO_NET_OFFLINE="true")
+    # cargo is a rustup proxy: it needs the real toolchain directories even
+    # though HOME has been redirected to the scratch directory
+    env.setdefault("RUSTUP_HOME", os.path.join(_REAL_HOME, ".rustup"))
+    env.setdefault("CARGO_HOME", os.path.join(_REAL_HOME, ".cargo"))
     for pkg in packages:
         r = subprocess.run(
             ["cargo", "build", "--offline", "-q", "-p", pkg],
@@ -134,6 +140,8 @@ def boot(rust=()):
     ui.ui_factory = ui.SilentUIFactory()
     from breezy import trace
     trace.be_quiet(True)
+    import logging
+    logging.getLogger("brz").setLevel(logging.CRITICAL + 1)   # no warnings on stderr from library code
     _booted = True
 
 
